@@ -118,8 +118,13 @@ func (r *resourceLock) getRecord() (err error) {
 func (r *resourceLock) getTso() (err error) {
 	ctx, cancel := r.genContext(context.Background())
 	defer cancel()
-	r.tso, err = r.store.GetTimestampOracle(ctx)
-	return err
+	// a failed read of the oracle must not erase the last good timestamp: the leader's start revision is taken from it
+	tso, err := r.store.GetTimestampOracle(ctx)
+	if err != nil {
+		return err
+	}
+	r.tso = tso
+	return nil
 }
 
 // Create implements resourcelock.Interface
@@ -137,8 +142,12 @@ func (r *resourceLock) Create(ler resourcelock.LeaderElectionRecord) error {
 		return err
 	}
 	r.lastVal = lerBytes
-	r.tso, err = r.store.GetTimestampOracle(context.Background())
-	return err
+	tso, err := r.store.GetTimestampOracle(context.Background())
+	if err != nil {
+		return err
+	}
+	r.tso = tso
+	return nil
 }
 
 // Update implements resourcelock.Interface
@@ -162,8 +171,12 @@ func (r *resourceLock) Update(ler resourcelock.LeaderElectionRecord) error {
 		return err
 	}
 
-	r.tso, err = r.store.GetTimestampOracle(context.Background())
-	return err
+	tso, err := r.store.GetTimestampOracle(context.Background())
+	if err != nil {
+		return err
+	}
+	r.tso = tso
+	return nil
 }
 
 // RecordEvent implements resourcelock.Interface
